@@ -26,7 +26,7 @@ func execC17(c Case) string {
 	case "mono":
 		return amtObs(bchutil.NewAmount(math.Float64frombits(atou(a[0])))) + " " + amtObs(bchutil.NewAmount(math.Float64frombits(atou(a[1]))))
 	case "rt":
-		return amtObs(bchutil.NewAmount(bchutil.Amount(atoi64(a[0])).ToBCH()))
+		return amtObs(bchutil.NewAmount(bchutil.Amount(atoi64(a[0])).ToBCH())) + " " + u64s(math.Float64bits(bchutil.Amount(atoi64(a[0])).ToBCH()))
 	case "tounit":
 		return u64s(math.Float64bits(bchutil.Amount(atoi64(a[0])).ToUnit(bchutil.AmountUnit(atoi(a[1])))))
 	case "fmt":
